@@ -501,15 +501,15 @@ package main
 //@   requires ser != nil && held(b.mu) == 0 && validTxBuffer(b)
 //@   ensures held(b.mu) == 0
 //@   noframe
-//@   # C19 (S3). Loops: 0 = statistics, 1 = slots, 2 = key collection, 3 = sends of one slot.
+//@   # C19 (S3). flush visits the BUFFERED slots of [currentSlot, endSlot] in ascending order (collected and sorted first),
+//@   # so it terminates for every endSlot. Loops: 0 = statistics, 1 = slot collection, 2 = slots, 3 = key collection of one
+//@   # slot, 4 = sends of one slot.
 //@   # Assumed about the stream (fncall = trusted boundary): Send and Context write nothing of the repository; every Send
 //@   # moves the ghost counter written(ser) by one; Context() is non-nil; its Err() is non-nil once Done() is closed.
-//@   # What is PROVED at the send site (pre(fncall ser.Send)): the message is the item buffered under (currentSlot, idx),
-//@   # currentSlot lies in [startSlot, endSlot], and idx is not smaller than the previous idx sent for this slot (the keys of a
-//@   # map are distinct, so the order is strict; the strict form needs the sort model's distinctness lemma and times out).
-//@   requires b.startSlot <= b.currentSlot
-//@   # as for the scan loop: `for b.currentSlot <= b.endSlot { ...; b.currentSlot++ }` needs endSlot < MaxUint64 to terminate
-//@   requires b.endSlot < 18446744073709551615
+//@   # What is PROVED at the send site (pre(fncall ser.Send#0)): slot lies in [currentSlot, endSlot]; the message is the item
+//@   # buffered under (slot, idx) -- by the loop-2 invariant "nothing is added or changed" that is the item buffered at entry;
+//@   # slot is not smaller than any slot handled before and idx not smaller than any idx sent before for this slot (map keys
+//@   # are distinct, so both orders are strict; the strict form needs the sort model's distinctness lemma and times out).
 //@   option sort-members-fwd
 //@   option sort-no-distinct
 //@   fncall ser.Context ensures result != nil
@@ -517,31 +517,40 @@ package main
 //@   fncall ser.Context().Err ensures result != nil
 //@   fncall ser.Send modifies written(ser)
 //@   fncall ser.Send ensures written(ser) == old(written(ser)) + 1
-//@   fncall ser.Send requires b.startSlot <= b.currentSlot && b.currentSlot <= b.endSlot
-//@   fncall ser.Send requires bufHas(b, b.currentSlot, idx) && arg0 == b.items[b.currentSlot][idx]
-//@   fncall ser.Send requires forall j int :: 0 <= j && j < rangeidx3 ==> indices[j] <= idx
-//@   ensures b.startSlot == old(b.startSlot) && b.endSlot == old(b.endSlot)
-//@   ensures result == nil ==> b.currentSlot > b.endSlot
-//@   ensures result == nil ==> forall s uint64 :: old(b.currentSlot) <= s && s <= b.endSlot ==> !has(b.items, s)
-//@   ensures forall s uint64, i uint64 :: s >= b.currentSlot ==> bufHas(b, s, i) == old(bufHas(b, s, i))
-//@   loop 1 invariant held(b.mu) == 2 && validTxBuffer(b)
-//@   loop 1 invariant b.startSlot == old(b.startSlot) && b.endSlot == old(b.endSlot) && old(b.currentSlot) <= b.currentSlot
-//@   loop 1 invariant forall s uint64 :: old(b.currentSlot) <= s && s < b.currentSlot ==> !has(b.items, s)
-//@   loop 1 invariant forall s uint64, i uint64 :: s >= b.currentSlot ==> bufHas(b, s, i) == old(bufHas(b, s, i))
-//@   loop 1 invariant forall s uint64, i uint64 :: s >= b.currentSlot && old(bufHas(b, s, i)) ==> b.items[s][i] == old(b.items[s][i])
-//@   loop 1 decreases ite(b.currentSlot <= b.endSlot, slotNum(b.endSlot - b.currentSlot) + 1, 0)
-//@   loop 2 invariant len(indices) <= cap(indices)
-//@   loop 2 invariant forall j int :: 0 <= j && j < len(indices) ==> has(txMap, indices[j])
-//@   # (that indices holds EVERY key of txMap, pairwise distinct, also proves -- invariants `visited2(indices[j])`,
-//@   #  `indices[j] != indices[k]`, `visited2(k) ==> exists j :: indices[j] == k` -- but those quantifiers make the later
-//@   #  obligations time out and no obligation below can use them: there is no way to state "every item was sent")
-//@   # the facts of loop 1 are repeated for the inner loop (cheaper for the solver than re-deriving the frame)
-//@   loop 3 invariant held(b.mu) == 2 && validTxBuffer(b)
-//@   loop 3 invariant b.startSlot == old(b.startSlot) && b.endSlot == old(b.endSlot) && old(b.currentSlot) <= b.currentSlot && b.currentSlot <= b.endSlot
-//@   loop 3 invariant forall s uint64 :: old(b.currentSlot) <= s && s < b.currentSlot ==> !has(b.items, s)
-//@   loop 3 invariant forall s uint64, i uint64 :: s >= b.currentSlot ==> bufHas(b, s, i) == old(bufHas(b, s, i))
-//@   loop 3 invariant forall s uint64, i uint64 :: s >= b.currentSlot && old(bufHas(b, s, i)) ==> b.items[s][i] == old(b.items[s][i])
-//@   loop 3 invariant has(b.items, b.currentSlot) && txMap == b.items[b.currentSlot]
+//@   fncall ser.Send requires b.currentSlot <= slot && slot <= b.endSlot
+//@   fncall ser.Send requires bufHas(b, slot, idx) && arg0 == b.items[slot][idx]
+//@   fncall ser.Send requires forall j int :: 0 <= j && j < rangeidx4 ==> indices[j] <= idx
+//@   fncall ser.Send requires forall j int :: 0 <= j && j < rangeidx2 ==> slots[j] <= slot
+//@   ensures b.startSlot == old(b.startSlot) && b.endSlot == old(b.endSlot) && b.currentSlot == old(b.currentSlot)
+//@   # nothing is added or changed; rows outside the range are untouched
+//@   ensures forall s uint64, i uint64 :: bufHas(b, s, i) ==> old(bufHas(b, s, i)) && b.items[s][i] == old(b.items[s][i])
+//@   ensures forall s uint64, i uint64 :: (s < b.currentSlot || s > b.endSlot) ==> bufHas(b, s, i) == old(bufHas(b, s, i))
+//@   loop 1 invariant len(slots) <= cap(slots)
+//@   loop 1 invariant forall j int :: 0 <= j && j < len(slots) ==> has(b.items, slots[j]) && b.currentSlot <= slots[j] && slots[j] <= b.endSlot
+//@   loop 2 invariant held(b.mu) == 2 && validTxBuffer(b)
+//@   loop 2 invariant b.startSlot == old(b.startSlot) && b.endSlot == old(b.endSlot) && b.currentSlot == old(b.currentSlot)
+//@   loop 2 invariant forall j int :: 0 <= j && j < len(slots) ==> b.currentSlot <= slots[j] && slots[j] <= b.endSlot
+//@   loop 2 invariant forall j int, k int :: 0 <= j && j < k && k < len(slots) ==> slots[j] <= slots[k]
+//@   loop 2 invariant forall j int :: 0 <= j && j < rangeidx2 ==> !has(b.items, slots[j])
+//@   loop 2 invariant forall s uint64 :: has(b.items, s) ==> old(has(b.items, s))
+//@   loop 2 invariant forall s uint64, i uint64 :: bufHas(b, s, i) ==> old(bufHas(b, s, i)) && b.items[s][i] == old(b.items[s][i])
+//@   loop 2 invariant forall s uint64, i uint64 :: (s < b.currentSlot || s > b.endSlot) ==> bufHas(b, s, i) == old(bufHas(b, s, i))
+//@   loop 2 decreases len(slots) - rangeidx2
+//@   loop 3 invariant len(indices) <= cap(indices)
 //@   loop 3 invariant forall j int :: 0 <= j && j < len(indices) ==> has(txMap, indices[j])
-//@   loop 3 invariant forall j int, k int :: 0 <= j && j < k && k < len(indices) ==> indices[j] <= indices[k]
-//@   loop 3 decreases len(indices) - rangeidx3
+//@   # loop 3 appends to a []uint64, so the contents of every []uint64 are forgotten at its head: the facts about slots are repeated
+//@   loop 3 invariant ref(indices) != ref(slots)
+//@   loop 3 invariant forall j int :: 0 <= j && j < len(slots) ==> b.currentSlot <= slots[j] && slots[j] <= b.endSlot
+//@   loop 3 invariant forall j int, k int :: 0 <= j && j < k && k < len(slots) ==> slots[j] <= slots[k]
+//@   loop 3 invariant forall j int :: 0 <= j && j < rangeidx2 ==> !has(b.items, slots[j])
+//@   loop 3 invariant forall j int :: 0 <= j && j < rangeidx2 ==> slots[j] <= slot
+//@   loop 3 invariant rangeidx2 < len(slots) && slots[rangeidx2] == slot
+//@   # (that indices holds EVERY key of txMap, pairwise distinct, also proves -- invariants `visited3(indices[j])`,
+//@   #  `indices[j] != indices[k]`, `visited3(k) ==> exists j :: indices[j] == k` -- but those quantifiers make the later
+//@   #  obligations time out and no obligation below can use them: there is no way to state "every item was sent")
+//@   loop 4 invariant has(b.items, slot) && txMap == b.items[slot]
+//@   loop 4 invariant ref(indices) != ref(slots) && rangeidx2 < len(slots) && slots[rangeidx2] == slot
+//@   loop 4 invariant forall j int :: 0 <= j && j < rangeidx2 ==> !has(b.items, slots[j])
+//@   loop 4 invariant forall j int :: 0 <= j && j < len(indices) ==> has(txMap, indices[j])
+//@   loop 4 invariant forall j int, k int :: 0 <= j && j < k && k < len(indices) ==> indices[j] <= indices[k]
+//@   loop 4 decreases len(indices) - rangeidx4
